@@ -391,6 +391,9 @@ func (e *env) runConn(ctx *core.Ctx, cc *connCase) {
 			bad = true
 		case "unframed":
 			// the parser reads to a timeout (or swallows later bytes)
+			if rerr == nil {
+				diffs = append(diffs, "model: body has no framing and the connection stays open; implementation produced a complete message")
+			}
 			bad = true
 		}
 		if !bad {
